@@ -86,9 +86,17 @@ def c02(res, wd):
     ps += plans.batch(res.seed * 1000 + 10, sizes(res.tier, 10, 60), 300, fam=plans.tight)
     engines.obs_runs(res, "C02", ps, {"C02"}, wd, "c02",
                      nontrivial=lambda st, pl: st["loads"] >= 1 and (st["stalls"] >= 1 or st["maxDepth"] >= 2))
+    # disconnect-driven rollbacks that reach confirmed frames: a survivor adopts the earlier cut-off another peer
+    # reports and loads its confirmed frame (or the one before).  The survivors' views differ by construction, so these
+    # runs end in the panic of known finding KF-C10 (judged by C10's check, not here); what C02 demands of them is
+    # that every load before that finds the cell of the current timeline.
+    engines.obs_runs(res, "C02", plans.batch(res.seed * 1000 + 11, sizes(res.tier, 6, 40), 40, fam=plans.stale3),
+                     {"C02"}, wd, "c02stale", panic_is_violation=False,
+                     nontrivial=lambda st, pl: st["loads"] >= 2 and st["discInputs"] >= 1)
     res.rule = ("request-list walker (Monitor.tla ReqStep/TickP2P/TickSpec) over every advance_frame call of: "
                 "exhaustive model runs, TLC schedules replayed on the real sessions, random runs with sparse saving, "
-                "tiny windows (stalls at the prediction limit), high latency/loss and spectators; non-trivial = "
+                "tiny windows (stalls at the prediction limit), high latency/loss and spectators, three-peer runs in which a "
+                "gossiped earlier cut-off rolls a survivor back to its confirmed frame; non-trivial = "
                 ">=1 load and (>=1 stall or rollback depth >=2)")
     res.assumptions += ["SyncTest request lists are judged by C13's check"]
 
@@ -1047,8 +1055,58 @@ def _forge_plan(rng, frames, payloads):
     return p
 
 
+WIRE_BIN = os.path.join(core.BIN, "wire")
+
+
+def _wire_layer(res, wd, pid="C08"):
+    """The datagram layer: raw datagrams (every 0/1-byte one, header grids, truncations, trailing bytes, marker
+    values at every position, random edits, datagrams longer than the receive buffer) are sent over the loopback
+    interface to the REAL UdpNonBlockingSocket; what receive_all_messages hands out is judged by TLC against the
+    grammar in Wire.tla (Trace_Wire.tla); send_to's bytes are compared with the encoding."""
+    import re
+    rec = os.path.join(wd, "wire.ndjson")
+    rc, out = core.sh([WIRE_BIN, rec, str(res.seed), str(sizes(res.tier, 1500, 20000))], timeout=600)
+    if rc == 3:
+        raise core.ToolError("wire: loopback datagrams are not delivered in this environment: " + out[-300:])
+    last = [l for l in out.splitlines() if l.startswith("{")]
+    if rc != 0 or not last:
+        rp = os.path.join(core.REPLAYS, pid, "wire_abort_s%d.ndjson" % res.seed)
+        os.makedirs(os.path.dirname(rp), exist_ok=True)
+        if os.path.exists(rec):
+            shutil.copy(rec, rp)
+        res.violations.append({"prop": pid, "code": "socket-aborted-the-process", "detail": out[-300:],
+                               "family": "wire", "cls": "wire", "replay": rp})
+        return
+    summ = json.loads(last[-1])
+    rc, out = core.tlc(os.path.join(core.SPEC, "Trace_Wire.tla"), os.path.join(core.SPEC, "Trace_Wire.cfg"),
+                       os.path.join(wd, "md_wire"), env={"TRACE": rec}, timeout=900, xmx="3g")
+    m = re.search(r'<<"WIRE-RESULT", "(.*)">>', out)
+    if not m:
+        raise core.ToolError("Trace_Wire produced no result (rc=%d): %s" % (rc, out[-1500:]))
+    r = json.loads(m.group(1).encode().decode("unicode_escape"))
+    if r["records"] != summ["rx"] + summ["tx"]:
+        raise core.ToolError("Trace_Wire judged %d records, the harness wrote %d" % (r["records"], summ["rx"] + summ["tx"]))
+    res.traces += 1
+    res.evaluations += r["records"]
+    res.nontrivial += r["accepted"]
+    res.extra["wire_layer"] = {"datagrams_received": summ["rx"], "messages_sent": summ["tx"],
+                               "well_formed_per_Wire_tla": r["accepted"], "rejected_per_Wire_tla": summ["rx"] - r["accepted"],
+                               "validated_by_tlc": r["records"]}
+    if r["accepted"] < 50 or summ["rx"] - r["accepted"] < 50:
+        raise core.ToolError("wire: vacuous sweep (accepted %d of %d)" % (r["accepted"], summ["rx"]))
+    for b in r["first"][:3]:
+        rp = os.path.join(core.REPLAYS, pid)
+        os.makedirs(rp, exist_ok=True)
+        rpath = os.path.join(rp, "wire_%s_s%d.json" % (b["why"], res.seed))
+        with open(rpath, "w") as f:
+            json.dump(b, f)
+        res.violations.append({"prop": pid, "code": b["why"], "detail": b["rec"], "family": "wire", "cls": "wire",
+                               "replay": rpath})
+
+
 def c08(res, wd):
     _codec_core(res, wd, "C08")
+    _wire_layer(res, wd)
     # packet level: malformed / foreign packets injected at random points of otherwise valid runs
     # (handshake, running, after a disconnect); invalid payloads are chosen by the Codec specification
     rng = random.Random(res.seed * 1000 + 80)
@@ -1108,7 +1166,9 @@ def c08(res, wd):
                                    "line": 0, "detail": bad, "family": "twin", "cls": "twin", "replay": replay})
     res.extra["twin_runs"] = len(pairs)
     res.rule = ("byte level: every byte string up to 2 bytes (thorough: 3) through the real decode, validated by TLC "
-                "against Codec.tla, plus mutated payloads (panic / abort / peak allocation); packet level: forged input "
+                "against Codec.tla, plus mutated payloads (panic / abort / peak allocation); datagram level: raw datagrams "
+                "(truncations, trailing bytes, marker values at every position, unknown variants, over-long datagrams) sent "
+                "over loopback to the real UdpNonBlockingSocket, outcome judged by TLC against the grammar Wire.tla; packet level: forged input "
                 "packets derived from the last genuine one (wrong number of statuses, negative start frame, payloads "
                 "the Codec specification rejects, frames of the wrong size alone / before / after well-sized frames, "
                 "foreign magic, unknown address) injected with probability 5-50% per tick into 2-3 peer sessions with "
@@ -1431,6 +1491,9 @@ def c17(res, wd):
     ps = [_order_plan(rng, frames, ["locals", "many", "drop", "spec"][i % 4]) for i in range(n)]
     for pl in ps[::5]:
         pl["cfg"]["wide"] = True
+    # four peers: one reports the drop of a player, another one (silent since) still holds an older view of it;
+    # the cut-off must not depend on the order in which the endpoints are asked
+    ps += [plans.gossip4(rng, 40) for _ in range(sizes(res.tier, 3, 12))]
     # TLC-generated schedules for the 2+1-local-players and the 3-peer model are repeated as well
     scheds = []
     for tag, over in (("g21", {"Peers": "GenPeers21", "NumPlayers": 3, "MaxFrame": 6, "MaxSteps": 70, "DelayValues": "{0, 1}"}),
@@ -1479,7 +1542,7 @@ def c17(res, wd):
                 "sequence of advance_frame results, request lists with inputs/statuses, frames and game states call by "
                 "call, and per peer and remote address the event sequence.  Scenarios are biased to states where "
                 "several endpoints/handles have work in the same call: 2+1 / 2+2 local players with delay changes, 3-4 "
-                "peers with spectators, dying peers, desync reports.  non-trivial = >=50 calls compared" % reps)
+                "peers with spectators, dying peers, desync reports, four peers with differing reports about a dropped player.  non-trivial = >=50 calls compared" % reps)
     res.assumptions += ["the schedule (API calls, delivered packets in per-link order, clock) is identical across the "
                         "repetitions because the driver decides packet fates in (destination, send order)"]
 
@@ -1528,11 +1591,12 @@ def c15(res, wd):
     # (2) closed loop on real sessions: every lead, latency, fps
     ps = []
     leads = list(range(-7, 8))
-    lats = [0, 8, 16, 33, 50, 100]
+    lats = [0, 8, 16, 33, 50, 100, 150]          # 150: the round trip exceeds the interval between quality reports
     grid = [(k, l, f) for k in leads for l in lats for f in (60, 30)]
     rng = random.Random(res.seed * 1000 + 150)
     if res.tier == "quick":
-        grid = rng.sample(grid, 24) + [(0, 16, 60), (7, 0, 60), (-7, 8, 60), (3, 50, 30)]
+        grid = rng.sample(grid, 24) + [(0, 16, 60), (7, 0, 60), (-7, 8, 60), (3, 50, 30), (0, 150, 60), (2, 150, 30),
+                                       (1, 100, 60)]
     for (k, l, f) in grid:
         if abs(k) + (l * f) // 1000 + 1 > 10:       # the leader must stay inside its prediction window
             continue
@@ -1547,7 +1611,7 @@ def c15(res, wd):
     res.rule = ("(1) TimeSync.tla: 30-slot windows; F32.tla gives the code's f32 average as an exact integer function; "
                 "records of the real window under random and adversarial sequences must EQUAL it (TLC); "
                 "(4) network_stats() results of random runs compared with the specification (Trace_Sys); (2) real two-peer "
-                "sessions under the virtual clock for every lead -7..7 x one-way latency {0,8,16,33,50,100} ms x fps "
+                "sessions under the virtual clock for every lead -7..7 x one-way latency {0,8,16,33,50,100,150} ms x fps "
                 "{30,60} that keeps the leader inside its window; after the warm-up Monitor.tla demands on every call "
                 "|frames_ahead - real lead| <= 2 and |sum of both peers' frames_ahead| <= 2, on every network_stats call "
                 "ping in [2L, 2L + 2 ticks], local figure = the peer's remote figure (+-2), errors before one second; "
